@@ -183,10 +183,14 @@ class PyKdebugParser:
         return '\n'.join(ret)
 
     def _format_log(self, os_log: OsLogEvent):
-        time_string = os_log.unix_date.strftime('%Y-%m-%d %H:%M:%S.%f')
-        timestamp = f'{time_string:<27}'
-        event_rep = colored(str(timestamp), 'green') if self.color else str(timestamp)
-        if os_log.process:
+        event_rep = ''
+        if self.show_timestamp:
+            time_string = os_log.unix_date.strftime('%Y-%m-%d %H:%M:%S.%f')
+            timestamp = f'{time_string:<27}'
+            event_rep += colored(str(timestamp), 'green') if self.color else str(timestamp)
+        if self.show_tid:
+            event_rep += f'{os_log.thread_identifier:>11} '
+        if self.show_process and os_log.process:
             # Pad before colouring, the escape sequences must not count as column width.
             process = f'{self._format_process(os_log.thread_identifier):<27}'
             process = colored(process, 'magenta') if self.color else process
